@@ -123,6 +123,11 @@ func checkC13(c *Ctx) {
 		b, _ := os.ReadFile(f)
 		progs = append(progs, prog{"example:" + filepath.Base(f), string(b), exampleStdin, nil})
 	}
+	// texts the front end rejects: the same diagnostics on every execution, also the second time in one process
+	pr := keywordSpelling["print"]
+	for i, src := range []string{pr + " (1;\n", "@\n", pr + " 1;\n@@@\n" + pr + " 2;\n", keywordSpelling["var"] + " = 3;\n", "\"open\n", pr + " 1 +;\n" + pr + " 2 +;\n"} {
+		progs = append(progs, prog{fmt.Sprintf("rejected-%d", i), src, "", nil})
+	}
 	for i, p := range progs {
 		if i%(len(progs)/4+1) == 0 {
 			c.sample(map[string]interface{}{"program": p.key, "source": clip(p.src, 500), "stdin": clip(p.stdin, 60)})
@@ -502,11 +507,11 @@ var transforms = []transform{
 
 func checkC18(c *Ctx) {
 	sel := []corpusSpec{{"FamControl", "FamControl_quick.cfg", 6, ""}, {"FamCalls", "FamCalls_quick.cfg", 2, ""}, {"FamFaults", "FamFaults_quick.cfg", 3, ""}, {"FamArrays", "FamArrays_quick.cfg", 12, ""},
-		{"FamObjects", "FamObjects_quick.cfg", 12, ""}, {"FamOrder", "FamOrder_quick.cfg", 2, ""}, {"FamScope", "FamScope_quick.cfg", 12, ""}, {"FamOps", "FamOps_quick.cfg", 60, "^chain"}, {"FamPrint", "FamPrint_quick.cfg", 3, ""}}
+		{"FamObjects", "FamObjects_quick.cfg", 12, ""}, {"FamOrder", "FamOrder_quick.cfg", 2, ""}, {"FamScope", "FamScope_quick.cfg", 12, ""}, {"FamOps", "FamOps_quick.cfg", 60, "^chain"}, {"FamPrint", "FamPrint_quick.cfg", 3, ""}, {"FamGen", "FamGen_quick.cfg", 3, ""}}
 	reps := 1
 	if c.Tier == "thorough" {
 		sel = []corpusSpec{{"FamControl", "FamControl_quick.cfg", 1, ""}, {"FamCalls", "FamCalls_quick.cfg", 1, ""}, {"FamFaults", "FamFaults_quick.cfg", 1, ""}, {"FamArrays", "FamArrays_quick.cfg", 2, ""},
-			{"FamObjects", "FamObjects_quick.cfg", 2, ""}, {"FamOrder", "FamOrder_quick.cfg", 1, ""}, {"FamScope", "FamScope_quick.cfg", 2, ""}, {"FamWild", "FamWild_quick.cfg", 3, ""}, {"FamOps", "FamOps_quick.cfg", 8, "^chain"}, {"FamPrint", "FamPrint_quick.cfg", 1, ""}}
+			{"FamObjects", "FamObjects_quick.cfg", 2, ""}, {"FamOrder", "FamOrder_quick.cfg", 1, ""}, {"FamScope", "FamScope_quick.cfg", 2, ""}, {"FamWild", "FamWild_quick.cfg", 3, ""}, {"FamOps", "FamOps_quick.cfg", 8, "^chain"}, {"FamPrint", "FamPrint_quick.cfg", 1, ""}, {"FamGen", "FamGen_quick.cfg", 1, ""}}
 		reps = 4
 	}
 	corpus := c.loadCorpus(sel, func(r *SemRec) bool {
